@@ -1302,6 +1302,38 @@ func (c *Ctx) lockCovers(rule string, fi *FuncInfo, clause string) int {
 		}
 		return base.Name(), true
 	}
+	// closures bound to a local name: their shared writes happen where the name is used (called, or
+	// handed to a helper that calls it)
+	closureWrites := map[types.Object][]string{}
+	closureDef := map[ast.Node]bool{}
+	ast.Inspect(fi.Decl.Body, func(nd ast.Node) bool {
+		as, ok := nd.(*ast.AssignStmt)
+		if !ok || len(as.Lhs) != 1 || len(as.Rhs) != 1 {
+			return true
+		}
+		lit, isLit := unparen(as.Rhs[0]).(*ast.FuncLit)
+		o := identObj(info, as.Lhs[0])
+		if !isLit || o == nil {
+			return true
+		}
+		closureDef[as] = true
+		ast.Inspect(lit.Body, func(q ast.Node) bool {
+			var lhss []ast.Expr
+			switch x := q.(type) {
+			case *ast.AssignStmt:
+				lhss = x.Lhs
+			case *ast.IncDecStmt:
+				lhss = []ast.Expr{x.X}
+			}
+			for _, l := range lhss {
+				if nm, isSh := shared(l); isSh {
+					closureWrites[o] = append(closureWrites[o], nm)
+				}
+			}
+			return true
+		})
+		return true
+	})
 	g := c.cfgOf(info, fi.Decl.Body)
 	const (
 		top = iota
@@ -1345,6 +1377,21 @@ func (c *Ctx) lockCovers(rule string, fi *FuncInfo, clause string) int {
 					if nm, isSh := shared(l); isSh {
 						writes[l.Pos()] = &wr{l.Pos(), nm, st}
 					}
+				}
+				if !closureDef[m] && len(closureWrites) > 0 {
+					ast.Inspect(m, func(q ast.Node) bool {
+						if _, isLit := q.(*ast.FuncLit); isLit {
+							return false
+						}
+						if id, isId := q.(*ast.Ident); isId {
+							if o := info.Uses[id]; o != nil {
+								for _, nm := range closureWrites[o] {
+									writes[id.Pos()] = &wr{id.Pos(), nm, st}
+								}
+							}
+						}
+						return true
+					})
 				}
 			}
 			for _, s := range b.Succs {
